@@ -177,9 +177,9 @@ def rule_foot_and_pair(ctx, cfg, prog, rule_foot='R-FOOT', rule_pair='R-PAIR'):
                 ma = foot.footprint(prog, memo, mf, 0, sig)
                 ua = foot.footprint(prog, memo, uf, 0, sig)
             except foot.Unsupported as e:
-                ctx.ob(rule_foot, False, 'foot|model|' + short, loc_str(mf),
-                       '%s: the buffer walk cannot be modelled as offsets affine in the slot count (%s)' % (short, e), cfg=cfg)
-                continue
+                # a walk this interpreter cannot follow is not a finding about the code: no verdict
+                from . import buildmodel as bm_
+                raise bm_.AnalysisBroken('R-FOOT cannot model %s: the buffer walk is not expressible as offsets affine in the slot count (%s)' % (short, e))
             for L in ([0, 1, 3] if has_l else [0]):
                 n += 1
                 want = length_of(prog, parent, tb, L, bool(sig))
